@@ -190,6 +190,10 @@ def make_configs(tier, seed):
         if j % 3 != 2:
             poly.append((rng.randrange(1, 6), [0] * nreg))               # constant term
         g.add("OutPoly", xs + [no, 0 if (mod == 2 ** no and j % 4 == 0) else 2], nreg + 2, mod=mod, poly=poly)
+    # fixed polynomials: no constant term / constant term, with the first work wire labelled 0 (layout rev) and not (id)
+    for kind in ("rev", "id"):
+        g.add("OutPoly", [2, 3, 2], 3, mod=7, poly=[(3, [1])], kind=kind)
+        g.add("OutPoly", [2, 3, 2], 3, mod=5, poly=[(2, [1]), (3, [0])], kind=kind)
     # ---- IntegerComparator: exhaustive in value and geq
     for n in range(1, B + 1):
         for value in range(0, 2 ** n + 2):
@@ -297,7 +301,7 @@ def _same_ops(a, b):
 
 
 def paths_of(c, only=None):
-    """-> list of (path name, ops or None, matrix or None, error string)"""
+    """-> list of (path name, operations (the operator itself for the matrix path) or None, error string or None)"""
     pre, op, post = build(c)
     out = [["device", pre + [op] + post, None]]
     seen = []
@@ -319,11 +323,12 @@ def paths_of(c, only=None):
         rules = []
     for r in rules:
         kw = op.arguments if isinstance(op, Operator2) else getattr(op, "resource_params", {})
+        cond_known = True
         try:
             if not r.is_applicable(**kw):
                 continue
         except Exception:        # noqa: BLE001 - rule conditions of symbolic ops need the abstract form: try to run it
-            pass
+            cond_known = False
         try:
             with qp.queuing.AnnotatedQueue() as q:
                 if isinstance(op, Operator2):
@@ -332,7 +337,8 @@ def paths_of(c, only=None):
                     r(*op.parameters, wires=op.wires, **op.hyperparameters)
             ops = list(q.queue)
         except Exception as e:   # noqa: BLE001
-            out.append((f"rule:{r.name}", None, f"{type(e).__name__}: {e}"))
+            if cond_known:       # an applicable rule must run; one whose condition could not be evaluated is skipped
+                out.append((f"rule:{r.name}", None, f"{type(e).__name__}: {e}"))
             continue
         dup = next((j for j, other in enumerate(seen) if _same_ops(ops, other)), None)
         if dup is not None:
@@ -660,7 +666,8 @@ def run(tier, seed, cfgs=None):
             moved = sum(1 for o in tr["obs"] if o["o"] != o["i"])
             if moved:
                 nontriv.add((cid, path))
-            if len(samples) < 4 and moved and c["t"] in ("SignedOutSquare", "ModExp", "OutPoly", "Multiplier") and path != "device":
+            if (len(samples) < 4 and moved and c["t"] in ("SignedOutSquare", "ModExp", "OutPoly", "Multiplier", "OutMultiplier")
+                    and c["N"] >= 6 and not any(sm["config"]["t"] == c["t"] for sm in samples)):
                 o = tr["obs"][len(tr["obs"]) // 2]
                 samples.append({"config": _describe(c), "path": path, "input_registers": _decode(c, o["i"]),
                                 "output_registers": _decode(c, o["o"]), "verdict": v})
